@@ -6,6 +6,7 @@ import (
 	"io"
 	"os"
 	"path/filepath"
+	"strconv"
 	"sync"
 	"sync/atomic"
 	"time"
@@ -299,6 +300,7 @@ type nodeOpts struct {
 	gossipSleep       time.Duration
 	timeoutCommit     time.Duration
 	skipTimeoutCommit bool
+	initialHeight     int64 // genesis initial_height (0 = 1)
 }
 
 // failWriter passes the node's log through and remembers a "CONSENSUS FAILURE" line.
@@ -323,6 +325,16 @@ func (f *failWriter) Write(p []byte) (int, error) {
 }
 
 func (f *failWriter) get() string { f.mu.Lock(); defer f.mu.Unlock(); return f.line }
+
+func initialHeightOf(o nodeOpts) int64 {
+	if o.initialHeight > 1 {
+		return o.initialHeight
+	}
+	if v, err := strconv.ParseInt(os.Getenv("VERIF_C17_INITIAL_HEIGHT"), 10, 64); err == nil && v > 1 {
+		return v // the parent runs some children on chains whose first height is not 1
+	}
+	return 1
+}
 
 func newN3Node(dir string, gossipSleep time.Duration) *n3Node {
 	return newN3NodeOpts(dir, nodeOpts{gossipSleep: gossipSleep, timeoutCommit: 10 * time.Millisecond, skipTimeoutCommit: true})
@@ -361,7 +373,7 @@ func newN3NodeOpts(dir string, o nodeOpts) *n3Node {
 	n.genDoc = &types.GenesisDoc{
 		GenesisTime:     tmtime.Now().Add(-time.Minute),
 		ChainID:         n.chainID,
-		InitialHeight:   1,
+		InitialHeight:   initialHeightOf(o),
 		ConsensusParams: types.DefaultConsensusParams(),
 		Validators: []types.GenesisValidator{
 			{Address: npk.Address(), PubKey: npk, Power: 60, Name: "node"},
